@@ -19,6 +19,7 @@ func Run(r *report.Run) int {
 		}
 		r.Eval(res.Hash, res.Failed >= 1 && res.NodeDeleting >= 1)
 		r.Count("transactions", int64(res.Txns))
+		r.Count("interleaved_conflicting_pairs", int64(res.Interleaved))
 		r.Count("faults_fired", int64(res.FaultsFired))
 		if i < 2 {
 			r.Sample(map[string]any{"profiles": res.Profiles, "txns": res.Txns, "committed": res.Committed, "failed": res.Failed, "rolled_back": res.RolledBack})
